@@ -36,6 +36,7 @@ import (
 	"errors"
 	"fmt"
 	"io"
+	"math"
 	"sort"
 	"strconv"
 	"strings"
@@ -520,6 +521,26 @@ func TestTriples(t *testing.T) {
 						continue
 					}
 					run(&Case{Policy: condPolicy(ir.Bin(ir.OpEq, e, L(0))), Source: "built", Worlds: worlds[:1]}, "triple", fail)
+				}
+			}
+		}
+	}
+	// the same nestings over the int64 boundary: regrouping a + (b - c) into (a + b) - c keeps the mathematical value
+	// but moves the overflow, so a parenthesis lost between operators of one precedence level only shows here
+	bnd := []int64{math.MaxInt64, math.MinInt64, 1, -1, 2, 0}
+	for _, o1 := range ops {
+		for _, o2 := range ops {
+			for _, a := range bnd {
+				for _, b := range bnd {
+					for _, c := range bnd {
+						for _, e := range []*ir.Expr{ir.Bin(o1, L(a), ir.Bin(o2, L(b), L(c))), ir.Bin(o2, ir.Bin(o1, L(a), L(b)), L(c))} {
+							count++
+							if !mine(count) {
+								continue
+							}
+							run(&Case{Policy: condPolicy(ir.Bin(ir.OpGt, e, L(0))), Source: "built", Worlds: worlds[:1]}, "triple-boundary", fail)
+						}
+					}
 				}
 			}
 		}
